@@ -180,3 +180,83 @@ Qed.
 
 Lemma grpc_roundtrip c : core_of_resp (resp_of_core c) = drop_field c.
 Proof. reflexivity. Qed.
+
+(* ---- error shapes through the transport encoders ---- *)
+
+(* errors.As finds the first service error of the chain, depth first, left to right *)
+Lemma find_serr_hd e : find_serr e = hd_error (serrs e).
+Proof.
+  induction e as [m|c|w e IH|a IHa b IHb]; simpl; try reflexivity.
+  - exact IH.
+  - rewrite IHa, IHb. destruct (serrs a); reflexivity.
+Qed.
+
+(* wrappers, however many, change neither what is found nor the list of service errors *)
+Lemma serrs_wrap_all ws e : serrs (wrap_all ws e) = serrs e.
+Proof. induction ws as [|w ws IH]; simpl; [reflexivity|exact IH]. Qed.
+
+Lemma find_serr_wrap_all ws e : find_serr (wrap_all ws e) = find_serr e.
+Proof. induction ws as [|w ws IH]; simpl; [reflexivity|exact IH]. Qed.
+
+Lemma http_error_response_spec fid e :
+  http_error_response fid e = resp_of_core (encoded_core fid e).
+Proof.
+  unfold http_error_response, encoded_core. rewrite find_serr_hd.
+  destruct (serrs e); reflexivity.
+Qed.
+
+Lemma resp_status_of_core c : resp_status (resp_of_core c) = http_status c.
+Proof. reflexivity. Qed.
+
+Lemma encoder_default fid e :
+  error_encoder None fid e fresh_writer =
+  {| wstatus := Some (http_status (encoded_core fid e));
+     wbodies := [resp_of_core (encoded_core fid e)];
+     wcalls := 1 |}.
+Proof.
+  unfold error_encoder, default_formatter. cbn [fst snd].
+  rewrite http_error_response_spec, resp_status_of_core. reflexivity.
+Qed.
+
+Lemma encoder_custom (f : formatter) fid e :
+  error_encoder (Some f) fid e fresh_writer =
+  {| wstatus := Some (fst (f e)); wbodies := [snd (f e)]; wcalls := 1 |}.
+Proof. reflexivity. Qed.
+
+Lemma encoder_wrap_all ws fid c w :
+  error_encoder None fid (wrap_all ws (EServ c)) w = error_encoder None fid (EServ c) w.
+Proof.
+  unfold error_encoder, default_formatter, http_error_response.
+  rewrite find_serr_wrap_all. reflexivity.
+Qed.
+
+Lemma encoder_wrapped_service ws fid c :
+  error_encoder None fid (wrap_all ws (EServ c)) fresh_writer =
+  {| wstatus := Some (http_status c); wbodies := [resp_of_core c]; wcalls := 1 |}.
+Proof. rewrite encoder_wrap_all. reflexivity. Qed.
+
+Lemma encoder_no_service fid e :
+  serrs e = [] ->
+  error_encoder None fid e fresh_writer =
+  {| wstatus := Some 500; wbodies := [resp_of_core (fault_core (error_string e) fid)]; wcalls := 1 |}.
+Proof.
+  intro H. rewrite encoder_default. unfold encoded_core. rewrite H. reflexivity.
+Qed.
+
+Lemma encoder_status_range fid e :
+  exists s, wstatus (error_encoder None fid e fresh_writer) = Some s /\ In s [400; 408; 415; 500; 503; 504].
+Proof.
+  rewrite encoder_default. eexists; split; [reflexivity|]. apply http_status_range.
+Qed.
+
+Lemma grpc_encode_spec fid e :
+  grpc_encode fid e =
+  (match serrs e with [] => Unknown | c :: _ => code_of_flags c end,
+   error_string e, resp_of_core (encoded_core fid e)).
+Proof.
+  unfold grpc_encode, encoded_core. rewrite find_serr_hd. destruct (serrs e); reflexivity.
+Qed.
+
+Lemma grpc_encode_back fid e :
+  core_of_resp (snd (grpc_encode fid e)) = drop_field (encoded_core fid e).
+Proof. rewrite grpc_encode_spec. reflexivity. Qed.
